@@ -105,6 +105,10 @@ class RefDict(ImplDict):
                 self.set_item(name, value)
 
     def set_item(self, name, value):
+        model = self.owner.model
+        if self.owner is not model and name not in self:
+            if name in model.global_refs:   # name starts shadowing a global ref
+                model.clear_attr_referrers(model.global_refs[name])
         ImplDict.set_item(self, name,
                           self.wrap_impl(self.owner, name, value))
 
